@@ -105,7 +105,11 @@ func judgeText(f *family, lab *fedlab.Lab, q, opName string, opVars map[string]a
 	if len(opVars) > 0 {
 		vj, _ = json.Marshal(opVars)
 	}
-	ref := refexec.Execute(f.schema, doc, fedlab.Mono{U: f.u}, refexec.Options{OperationName: opName, Variables: vars, Root: fedlab.RootObj(kind)})
+	coordAt := map[string]string{}
+	ref := refexec.Execute(f.schema, doc, fedlab.Mono{U: f.u}, refexec.Options{OperationName: opName, Variables: vars, Root: fedlab.RootObj(kind),
+		OnField: func(path []any, parentType string, parent fedlab.Obj, fd *gast.Field) {
+			coordAt[pathNoIndex(path)] = parentType + "." + fd.Name
+		}})
 	out, reqs, err := lab.Exec(q, opName, vj)
 	if err != nil {
 		return "engine-error", []caseResult{{"planning such an operation never fails", "Execute returned an error", fmt.Sprintf("%v", firstLine(err.Error()))}}
@@ -119,7 +123,7 @@ func judgeText(f *family, lab *fedlab.Lab, q, opName string, opVars map[string]a
 	_, gwHasErr := gw["errors"]
 	refHasErr := len(ref.Errors) > 0
 	if gwData != refData {
-		fails = append(fails, caseResult{"gateway data equals the data of a single server owning all the data", diffSite(gw["data"], ref.Data), fmt.Sprintf("gateway: %s\nreference: %s", gwData, refData)})
+		fails = append(fails, caseResult{"gateway data equals the data of a single server owning all the data", diffCoord(gw["data"], ref.Data, coordAt), fmt.Sprintf("gateway: %s\nreference: %s", gwData, refData)})
 	} else if gwHasErr != refHasErr {
 		fails = append(fails, caseResult{"gateway reports errors exactly when the single server would", fmt.Sprintf("gateway errors=%v reference errors=%v", gwHasErr, refHasErr), fmt.Sprintf("gateway: %s\nreference errors: %v", out, ref.Errors)})
 	}
@@ -170,6 +174,29 @@ func diffSite(a, b any) string {
 		}
 	}
 	return "data." + strings.Join(parts, ".")
+}
+
+func pathNoIndex(p []any) string {
+	var parts []string
+	for _, x := range p {
+		if _, ok := x.(int); ok {
+			continue
+		}
+		parts = append(parts, fmt.Sprint(x))
+	}
+	return strings.Join(parts, ".")
+}
+
+// diffCoord names the first differing position by the schema coordinate of the
+// field it belongs to (aliases and list indices do not change the site).
+func diffCoord(a, b any, coordAt map[string]string) string {
+	p := firstDiff(a, b, nil)
+	for n := len(p); n > 0; n-- {
+		if c, ok := coordAt[pathNoIndex(p[:n])]; ok {
+			return "first difference at a " + c + " position"
+		}
+	}
+	return "first difference at the root"
 }
 
 func firstDiff(a, b any, path []any) []any {
